@@ -8,6 +8,8 @@ RULE = ("(a) the C01 exhaustive-geometry correspondence (real ops vs extracted C
         "implementation alone: for every store case of (a), the bits outside [s,e) are compared with the input "
         "(python phys_byte/phys_bit written from the property text) and the stored buffer is loaded back and "
         "compared with v reduced to the field width (two's complement for signed carriers); "
+        "(b') the laws C02_store_of_loaded_is_identity (store the value just read: buffer unchanged byte for byte) and "
+        "C02_last_store_wins (store v2 after v1 == store v2 on the original buffer) on every round trip of (b); "
         "distinct = (byte order, bit order, carrier, len, s mod 8, e mod 8, bytes spanned) classes of round trips; "
         "(c) generated level: sequences of setter calls on compiled generated field sets (c02_gen.py)")
 
@@ -105,14 +107,46 @@ def run(ctx):
     elif "D1" in known:
         # the recorded defect no longer shows: the finding file is stale; say so but do not fail
         ctx.log("note: known finding D1 was not reproduced in this run")
+    # ---- algebraic laws on the implementation alone (theorems C02_store_of_loaded_is_identity, C02_last_store_wins)
+    def fmt(v):
+        return ("-" if v < 0 else "+") + format(abs(v), "x")
+    ident, lastw_a, lastw_b, law_meta = [], [], [], []
+    for (l, car, w, v), ld, got in zip(meta, second, back):
+        if got == "PANIC":
+            continue
+        p = l.split()
+        after = ld.split()[6] if len(ld.split()) > 6 else ""
+        before = p[7] if len(p) > 7 else ""
+        head = " ".join(p[1:6])
+        v2 = (-v - 1) if G.CARRIER_SIGNED[car] else ((1 << G.CARRIER_BITS[car]) - 1 - v)
+        ident.append(f"S {head} {got} {after}".rstrip())
+        lastw_a.append(f"S {head} {fmt(v2)} {after}".rstrip())
+        lastw_b.append(f"S {head} {fmt(v2)} {before}".rstrip())
+        law_meta.append((l, after))
+    law_out = vlib.run_sharded(lambda q: [impl_exe, q], ident + lastw_a + lastw_b, nshards=4, workdir=ctx.work, tag="law")
+    n = len(ident)
+    law_fail = None
+    if len(law_out) != 3 * n:
+        law_fail = ("runner", "", f"output length {len(law_out)} for {3 * n} law cases", "")
+    else:
+        for i, (l, after) in enumerate(law_meta):
+            if law_out[i] != after:
+                law_fail = law_fail or ("writing back the value just read changed the buffer", ident[i], law_out[i], after)
+            if law_out[n + i] != law_out[2 * n + i]:
+                law_fail = law_fail or ("a second store into the field depends on the value stored before it",
+                                        lastw_a[i] + "  vs  " + lastw_b[i], law_out[n + i], law_out[2 * n + i])
+    if law_fail:
+        vlib.violation(ctx, {"what": law_fail[0], "failing_input": law_fail[1], "implementation": law_fail[2],
+                             "expected": law_fail[3]})
+        nviol += 1
     gen = c02_gen.run_gen_phase(ctx)
     if not diffs and not info["ok"] and nviol == 0:
         vlib.violation(ctx, {"broken": info["reason"], "theorem": "props/C02.v"}, no_input=True)
     vlib.write_evidence(ctx, info, {
-        "evaluations": stats["evaluations"] + len(second), "distinct_nontrivial": len(classes), "rule": RULE,
+        "evaluations": stats["evaluations"] + len(second) + 3 * n, "distinct_nontrivial": len(classes), "rule": RULE,
         "samples": stats["samples"][:2] + [{"store": meta[i][0], "load_back": second[i], "implementation": back[i]} for i in (0, len(second) // 2)],
         "input_distribution": stats["histogram"], "exhaustive": True, "round_trips": len(second),
-        "known_D1_round_trips": d1_seen, "disagreements": len(diffs),
+        "known_D1_round_trips": d1_seen, "law_cases_identity_and_last_store_wins": 3 * n, "disagreements": len(diffs),
         "generated_setter_sequences": gen})
 
 
